@@ -822,7 +822,84 @@ def check_perm(pp, torch, c):
     return None
 
 
-CHECKS = {'knn': check_knn, 'nbr_filter': check_nbr, 'voxel_filter': check_voxel, 'voxel_filter_random': check_voxel_random,
+def check_cam_batch(pp, torch, c):
+    """batched cameras (intrinsics (..., 3, 3), extrinsics (...), points (..., N, 3) as documented): every batch item of
+    point2pixel / pixel2point / reprojerr equals the call on that item alone (which the exact tie judges), and
+    pixel2point(point2pixel(P), depth) = P for every camera of the batch"""
+    D = torch.float64
+    K, T, P = torch.tensor(c['K'], dtype=D), pp.SE3(torch.tensor(c['T'], dtype=D)), torch.tensor(c['P'], dtype=D)
+    bs = tuple(c['bshape'])
+    B = 1
+    for v in bs:
+        B *= v
+    Kb, Tb, Pb = K.reshape(bs + (3, 3)), pp.SE3(T.tensor().reshape(bs + (7,))), P.reshape(bs + P.shape[-2:])
+    use_T = c['use_T']
+
+    def items(t):
+        return t.reshape((B,) + tuple(t.shape[len(bs):]))
+    try:
+        pix = pp.point2pixel(Pb, Kb, Tb if use_T else None)
+    except Exception as e:
+        return 'point2pixel with batched intrinsics of shape %s raised %r' % (tuple(Kb.shape), e)
+    if tuple(pix.shape) != bs + (P.shape[-2], 2):
+        return 'point2pixel returned shape %s for points %s and intrinsics %s' % (tuple(pix.shape), tuple(Pb.shape), tuple(Kb.shape))
+    for b in range(B):
+        one = pp.point2pixel(items(Pb)[b], items(Kb)[b], pp.SE3(items(Tb.tensor())[b]) if use_T else None)
+        if not torch.allclose(items(pix)[b], one, rtol=1e-12, atol=1e-12):
+            return 'point2pixel: batch item %d is %s, the same camera alone gives %s' % (b, items(pix)[b].tolist(), one.tolist())
+    # camera-frame points and depths for the inverse
+    Pc = Tb.unsqueeze(-2).Act(Pb) if use_T else Pb
+    depth = Pc[..., 2]
+    try:
+        back = pp.pixel2point(pix, depth, Kb)
+    except Exception as e:
+        return 'pixel2point with batched intrinsics of shape %s and pixels of shape %s raised %r' % (tuple(Kb.shape), tuple(pix.shape), e)
+    if tuple(back.shape) != tuple(Pc.shape):
+        return 'pixel2point returned shape %s, expected %s' % (tuple(back.shape), tuple(Pc.shape))
+    err = float((back - Pc).abs().max())
+    scale = float(Pc.abs().max()) + 1.0
+    if not err <= 1e-9 * scale:
+        return 'pixel2point(point2pixel(P), depth) differs from P by %.3g for batched cameras (batch shape %s, %d points each)' % (err, bs, P.shape[-2])
+    for red in ('none', 'sum', 'norm'):
+        try:
+            e = pp.reprojerr(Pb, pix, Kb, Tb if use_T else None, reduction=red)
+        except Exception as ex:
+            return 'reprojerr(reduction=%r) with batched cameras raised %r' % (red, ex)
+        if not float(e.abs().max()) <= 1e-9 * (float(pix.abs().max()) + 1.0):
+            return 'reprojerr(reduction=%r) of the pixels produced by point2pixel is %.3g, not 0 (batched cameras)' % (red, float(e.abs().max()))
+    return None
+
+
+def camera_batches(ctx, pp, torch, n):
+    rng = ctx.rng
+    for t in range(n):
+        bs = rng.choice([(2,), (3,), (2, 2), (1,), (2, 1, 2)])
+        B = 1
+        for v in bs:
+            B *= v
+        N = rng.choice([1, 2, B, B, 5])                 # N == last batch extent is the treacherous case
+        K = [[[rng.choice([100.0, 150.0, 200.0, -120.0]), 0.0, rng.uniform(20, 80)], [0.0, rng.choice([100.0, 90.0, 250.0]), rng.uniform(20, 80)], [0.0, 0.0, 1.0]] for _ in range(B)]
+        T = [[rng.uniform(-1, 1), rng.uniform(-1, 1), rng.uniform(-1, 1)] + unit_quat(rng) for _ in range(B)]
+        P = [[[rng.uniform(-2, 2), rng.uniform(-2, 2), rng.uniform(4, 9)] for _ in range(N)] for _ in range(B)]
+        c = dict(fn='cam-batch', K=K, T=T, P=P, bshape=list(bs), use_T=bool(t % 2))
+        ctx.case(('cam-batch', tuple(bs), N, t), nontrivial=True, branch='camera-batched:%s' % ('N=B' if N == bs[-1] else 'N!=B'))
+        try:
+            why = check_cam_batch(pp, torch, c)
+        except Exception as e:  # noqa
+            why = 'check raised %s: %s' % (type(e).__name__, str(e)[:200])
+        if why:
+            ctx.violation('camera:batched-intrinsics', why, c)
+
+
+def unit_quat(rng):
+    while True:
+        q = [rng.gauss(0, 1) for _ in range(4)]
+        n = math.sqrt(sum(a * a for a in q))
+        if n > 1e-3:
+            return [a / n for a in q]
+
+
+CHECKS = {'cam-batch': check_cam_batch, 'knn': check_knn, 'nbr_filter': check_nbr, 'voxel_filter': check_voxel, 'voxel_filter_random': check_voxel_random,
           'knn_filter': check_knn_filter, 'random_filter': check_random, 'reprojerr-zero': check_reproj, 'perm': check_perm}
 
 
@@ -919,6 +996,7 @@ def run(ctx):
     directed(ctx, col, pp, torch)
     random_block(ctx, col, pp, torch)
     camera_cases(ctx, col, pp, torch, ctx.scale(70, 600))
+    camera_batches(ctx, pp, torch, ctx.scale(24, 200))
     files = col.files(ctx.scale(16, 48))
     res = run_case_files('C18', files, timeout=1500)
     bad = set()
